@@ -237,12 +237,17 @@ def bad_target(initial, target):
     sx.prove(D.OE not in drive.trace[1:], "operation was enabled for an invalid target", key + "/enabled-operation")
 
 
-def op_mode(mode):
+def op_mode(mode, described=None):
+    """described: the device description (EDS default / DCF value of 0x6502) states some mask of its own - a generic
+    family file, a placeholder: what counts is what the connected drive advertises"""
     node = _node()
     drive = D.Drive(D.SOD)
     sx.env().tick = 0.05
     _attach_sdo(node, drive)
     drive.supported = sx.fresh_int("supported", 0, 0xFFFFFFFF)
+    if described:
+        setattr(node.object_dictionary[0x6502], described, sx.fresh_int("described", 0, 0xFFFFFFFF))
+        sx.reach("mode-described")
     code, bit = D.MODES[mode]
     sup = ((drive.supported >> bit) & 1) == 1
     key = "C19/op_mode/%s" % mode
@@ -425,6 +430,9 @@ def op_mode_pdo(first, second, layout="shared"):
 
 def jobs(tier):
     out = [dict(func="decode", params={})]
+    for mode in ("PROFILED POSITION", "CYCLIC SYNCHRONOUS TORQUE", "HOMING"):
+        for described in ("default", "value"):
+            out.append(dict(func="op_mode", params=dict(mode=mode, described=described)))
     for ini in D.ALL_STATES:
         for tgt in D.ALL_STATES:
             out.append(dict(func="transition", params=dict(initial=ini, target=tgt, transport="sdo"), weight=2))
@@ -475,7 +483,7 @@ META = dict(
     assumptions=["a status read is the only point where an automatic transition becomes visible"],
     stubs=["struct", "time.monotonic", "threading.Condition", "sdo.upload/download replaced on the instance (framing is "
            "C01's business)", "Network.send_message replaced on the instance"],
-    required_reach=["decode-unknown"] + ["decode-" + s for s in D.ALL_STATES] +
+    required_reach=["mode-described", "decode-unknown"] + ["decode-" + s for s in D.ALL_STATES] +
                    ["refused", "commanded", "bad-target-refused", "mode-refused", "mode-set", "sequence", "mode-pdo", "mode-pdo-set", "mode-pdo-refused", "mode-retry", "mode-retry-refused", "mode-unknown"],
     limits=dict(quick=dict(max_decisions=20000), thorough=dict(max_decisions=20000, crosscheck_every=2, crosscheck_max=30)),
     validate_every=dict(quick=2, thorough=1),
